@@ -166,6 +166,12 @@ def _worker(args):
         return dict(case=case_id, results=[result(f"case-wall-clock-budget[{case_id}]", modname, "unknown", text=f"case exceeded {limit}s", case=case_id)],
                     wall=time.time() - t0, crash=None)
     except BaseException as e:  # noqa
+        from .sym import ShadowAbort
+        if isinstance(e, ShadowAbort):
+            # the harness cannot interpret the current source (e.g. a function it extracts mechanically was moved or renamed):
+            # undecided, never a verdict and not a checker crash
+            return dict(case=case_id, results=[result(f"case-supported[{case_id}]", modname, "unknown", text=f"the harness cannot interpret the current source: {e}", case=case_id)],
+                        wall=time.time() - t0, crash=None)
         return dict(case=case_id, results=[], wall=time.time() - t0,
                     crash="".join(traceback.format_exception(type(e), e, e.__traceback__))[-3000:])
     finally:
